@@ -445,6 +445,55 @@ type synRestMid struct {
 	Msg     []byte `ssh:"rest"`
 }
 
+// every field kind as the LAST field of a struct and as the last field before a rest field:
+// a short read of the final field is masked by nothing (no later field reports it)
+type synLastU64 struct {
+	A uint8 `sshtype:"210"`
+	V uint64
+}
+type synLastU64Rest struct {
+	A uint8 `sshtype:"211"`
+	V uint64
+	R []byte `ssh:"rest"`
+}
+type synLastU32 struct {
+	A uint8 `sshtype:"212"`
+	V uint32
+}
+type synLastU32Rest struct {
+	A uint8 `sshtype:"213"`
+	V uint32
+	R []byte `ssh:"rest"`
+}
+type synLastBool struct {
+	A uint32 `sshtype:"214"`
+	V bool
+}
+type synLastArr struct {
+	A uint8 `sshtype:"215"`
+	V [16]byte
+}
+type synLastStr struct {
+	A uint64 `sshtype:"216"`
+	V string
+}
+type synLastBlob struct {
+	A uint64 `sshtype:"217"`
+	V []byte
+}
+type synLastNames struct {
+	A uint8 `sshtype:"218"`
+	V []string
+}
+type synLastInt struct {
+	A uint8 `sshtype:"219"`
+	V *big.Int
+}
+type synLastU64x2 struct {
+	A uint64 `sshtype:"220"`
+	V uint64
+}
+
 // field kinds the codec does not support: Unmarshal must return an error, never panic
 type badInt struct{ A int }
 type badSliceInt struct {
@@ -876,7 +925,8 @@ func run(c *vf.Ctx) {
 	checkInventory(c, hookNames)
 	crossCheckSpecTable(c, msgs)
 	for _, p := range []interface{}{new(synAllKinds), new(synNoTag), new(synMultiTag), new(synRestOnly), new(synMpints), new(synSig),
-		new(synNamed), new(synBytesOnly), new(synGrow), new(synRestMid)} {
+		new(synNamed), new(synBytesOnly), new(synGrow), new(synRestMid), new(synLastU64), new(synLastU64Rest), new(synLastU32), new(synLastU32Rest),
+		new(synLastBool), new(synLastArr), new(synLastStr), new(synLastBlob), new(synLastNames), new(synLastInt), new(synLastU64x2)} {
 		mi, ok := describe(p, true)
 		if !ok {
 			panic("synthetic struct not describable: " + reflect.TypeOf(p).String())
